@@ -686,6 +686,12 @@ class Progress(JupyterMixin, RenderHook):
             try:
                 if self.auto_refresh and refresh_thread is not None:
                     refresh_thread.stop()
+                # print any partial line the redirect proxies still hold while the display is
+                # still live (it goes above the frame); otherwise it would be printed when the
+                # proxy is finalized, after the last frame, through a hook that is going away
+                for stream in (sys.stdout, sys.stderr):
+                    if isinstance(stream, FileProxy):
+                        stream.flush()
                 self.refresh()
                 if self.console.is_terminal:
                     self.console.line()
